@@ -65,6 +65,6 @@ class Namespace:
         if value:
             attrs_d["href"] = value
         context.setdefault("links", []).append(attrs_d)
-        del context["license"]
+        context.pop("license", None)
 
     _end_creativeCommons_license = _end_creativecommons_license
